@@ -87,7 +87,7 @@ def prune(n: Node, strict: bool = False) -> list:
         children = n.children.copy()
         for child in children:
             pruned += prune(child, strict)
-            if strict and child not in pruned:
+            if strict and child in n.children:
                 try:
                     node(child)
                 except MetapypeRuleError as ex:
